@@ -464,15 +464,17 @@ impl<'src> Walker<'src>
 
 		let mut brace_nesting = 0;
 
+		// Go token by token: a brace inside a comment
+		// or a string does not open or close anything
 		while !self.is_over()
 		{
-            let c = self.next_char();
+            let token = self.next_token();
 
-            if c == '{'
+            if token.kind == syntax::TokenKind::BraceOpen
 			{
 				brace_nesting += 1;
 			}
-			else if c == '}'
+			else if token.kind == syntax::TokenKind::BraceClose
 			{
                 if brace_nesting == 0
                     { break; }
@@ -480,7 +482,7 @@ impl<'src> Walker<'src>
 				brace_nesting -= 1;
 			}
 
-            self.cursor_index += c.len_utf8();
+            self.advance_to_token_end(&token);
 		}
 
 		let end = self.cursor_index;
